@@ -1,4 +1,4 @@
-import CalicoVerif.Proofs.C04Main
+import CalicoVerif.Proofs.C04Tables
 /-!
 C04 — IP set contents equal the addresses selected by the rule.
 
@@ -366,6 +366,20 @@ theorem ipset_members_eq_spec (matchSel : Sel → Labels → Bool) (suppress : B
     exact ⟨h1, fun hs c hc c' hc' => h2 hs c hc c' ((refcounted_iff_contributed hinv s _).2 hc')⟩
   · rintro ⟨h1, h2⟩
     exact ⟨h1, fun hs c hc c' hc' => h2 hs c hc c' ((refcounted_iff_contributed hinv s _).1 hc')⟩
+
+/-- **The tables the spec reads are the last values written.**  `memberSpec` / `contributed` are
+stated over the state's endpoint data, parent labels and IP set configuration; along every history
+from a fresh index these three tables are exactly "last writer wins" (`Tables.apply`: an update
+stores the written labels / nets / ports / de-duplicated profile ids, resp. profile labels, resp.
+selector / protocol / port name under its key, a deletion removes the key, nothing else changes; the
+map-order permutations change nothing).  Together with `ipset_members_eq_spec` this makes the
+consumer's IP sets a function of the current datastore contents only. -/
+theorem input_tables_last_writer_wins (matchSel : Sel → Labels → Bool) (suppress : Bool) (ops : List (Op Sel))
+    (hops : ∀ op ∈ ops, op.ok) :
+    tablesOf (run matchSel (Idx.new Sel suppress) ops) =
+      ops.foldl Tables.apply ⟨fun _ => none, fun _ => [], fun _ => none⟩ := by
+  rw [tables_run matchSel ops hops (inv_new matchSel suppress)]
+  rfl
 
 /-- **Reference counts count contributions.**  After every history the reference count of a
 member is the number of times the matching endpoints contribute it. -/
